@@ -356,14 +356,87 @@ class ProgenyVariance(Harness):
                 P.prove(P.eq(got, tot), "variance-equals-exact-gamete-enumeration", detail="parents %s traits %s" % (tup, tr))
 
 
+class UCFactory(Harness):
+    """usefulness-criterion problems built from a population: the variance factory is asked for exactly the crossing scheme the caller
+    specified (ncross, nprogeny, nself, map function) and every cross gets  mean of its parents' breeding values + intensity * sqrt(variance)"""
+    name = "usefulness-criterion-factory"
+    tol = 1e-6
+
+    def modules(self):
+        return ["pybrops.breed.prot.sel.prob.UsefulnessCriterionSelectionProblem", "pybrops.model.vmat.fcty.DenseTwoWayDHAdditiveGeneticVarianceMatrixFactory",
+                "pybrops.model.vmat.DenseTwoWayDHAdditiveGeneticVarianceMatrix", "pybrops.popgen.gmap.HaldaneMapFunction", "pybrops.popgen.gmat.DensePhasedGenotypeMatrix",
+                "pybrops.model.gmod.DenseAdditiveLinearGenomicModel", "pybrops.core.util.array"]
+
+    def inputs(self, mk):
+        n, t = self.params["n"], self.params["t"]
+        V = mk.real("V", (n, n, t), lo=0, hi=9)
+        return dict(V=V, u=mk.real("u", (2, t), lo=-4, hi=4))
+
+    def call(self, inp, mk):
+        import importlib
+        from pybrops.model.vmat.fcty.DenseTwoWayDHAdditiveGeneticVarianceMatrixFactory import DenseTwoWayDHAdditiveGeneticVarianceMatrixFactory as F
+        from pybrops.model.vmat.DenseTwoWayDHAdditiveGeneticVarianceMatrix import DenseTwoWayDHAdditiveGeneticVarianceMatrix as VM
+        from pybrops.popgen.gmap.HaldaneMapFunction import HaldaneMapFunction
+        from pybrops.popgen.gmat.DensePhasedGenotypeMatrix import DensePhasedGenotypeMatrix
+        from pybrops.model.gmod.DenseAdditiveLinearGenomicModel import DenseAdditiveLinearGenomicModel
+        from pybrops.core.util.array import xmapix
+        n, t, enc = self.params["n"], self.params["t"], self.params["enc"]
+        seen = []
+
+        class Fcty(F):
+            def from_gmod(self_, gmod, pgmat, ncross, nprogeny, nself, gmapfn, **kw):
+                seen.append(dict(ncross=ncross, nprogeny=nprogeny, nself=nself, gmapfn=type(gmapfn).__name__))
+                return VM(mat=inp["V"], taxa=pgmat.taxa, taxa_grp=pgmat.taxa_grp, trait=gmod.trait)
+        A = numpy.array([[[0, 1], [1, 1], [0, 0]], [[1, 1], [0, 1], [0, 1]]], dtype="int8")[:, :n, :]
+        pg = DensePhasedGenotypeMatrix(mat=A, taxa=numpy.array(["p%d" % i for i in range(n)], dtype=object), taxa_grp=numpy.arange(n), vrnt_chrgrp=numpy.array([1, 1]),
+                                       vrnt_phypos=numpy.array([1, 2]), vrnt_genpos=numpy.array([0.0, 0.5]), vrnt_xoprob=numpy.array([0.5, 0.3]))
+        pg.group_vrnt()
+        gm = DenseAdditiveLinearGenomicModel(beta=numpy.zeros((1, t)), u_misc=None, u_a=inp["u"], trait=numpy.array(["y%d" % i for i in range(t)], dtype=object))
+        C = getattr(importlib.import_module("pybrops.breed.prot.sel.prob.UsefulnessCriterionSelectionProblem"), "UsefulnessCriterion%sMateSelectionProblem" % enc)
+        xmap = numpy.array(list(xmapix(n, 2, True)))
+        k = len(xmap)
+        z, o = (0.0, 1.0) if enc == "Real" else (0, 1)
+        common = dict(ndecn=(1 if enc == "Subset" else k), decn_space=numpy.arange(k) if enc == "Subset" else numpy.stack([numpy.repeat(z, k), numpy.repeat(o, k)]),
+                      decn_space_lower=numpy.repeat(z, 1 if enc == "Subset" else k), decn_space_upper=numpy.repeat(k - 1 if enc == "Subset" else o, 1 if enc == "Subset" else k), nobj=t)
+        args = dict(nparent=2, ncross=self.params["ncross"], nprogeny=self.params["nprogeny"], nself=self.params["nself"], upper_percentile=0.1, vmatfcty=Fcty(),
+                    gmapfn=HaldaneMapFunction(), unique_parents=True, pgmat=pg, gpmod=gm)
+        if self.params.get("via_xmap"):
+            prob = C.from_pgmat_gpmod_xmap(xmap=xmap if mk.concrete else symnp.box(xmap), **args, **common)
+        else:
+            prob = C.from_pgmat_gpmod(**args, **common)
+        return dict(uc=prob.ucmat, seen=seen, xmap=xmap, bv=gm.gebv(pg).unscale())
+
+    def check(self, P, inp, out):
+        import scipy.stats
+        t = self.params["t"]
+        want = dict(ncross=self.params["ncross"], nprogeny=self.params["nprogeny"], nself=self.params["nself"], gmapfn="HaldaneMapFunction")
+        P.prove(len(out["seen"]) == 1 and out["seen"][0] == want, "variance-factory-asked-for-the-caller's-crossing-scheme", detail="%s vs %s" % (out["seen"], want))
+        inten = float(scipy.stats.norm.pdf(scipy.stats.norm.ppf(0.9)) / 0.1)
+        P.prove(tuple(out["uc"].shape) == (len(out["xmap"]), t), "one-row-per-candidate-cross")
+        for r, (a, b) in enumerate(out["xmap"]):
+            for tr in range(t):
+                mean = 0.5 * (cell(out["bv"], int(a), tr) + cell(out["bv"], int(b), tr))
+                d = cell(out["uc"], r, tr) - mean
+                v = cell(inp["V"], int(a), int(b), tr)
+                if P.concrete:
+                    P.prove(abs(d - inten * (float(v) ** 0.5)) <= 1e-6 * (1 + abs(d)), "uc=parental-mean+intensity*sqrt(variance)")
+                else:
+                    P.prove(And(d >= 0, P.close(d * d, (inten * inten) * v, 1e-9)), "uc=parental-mean+intensity*sqrt(variance)")
+
+
 def obligations(tier):
     obs = []
+    for enc in ("Subset", "Real", "Integer", "Binary"):
+        for via in (False, True):
+            if tier == "quick" and via and enc in ("Integer", "Binary"):
+                continue
+            obs.append(UCFactory(enc=enc, n=2, t=1, ncross=3, nprogeny=5, nself=2, via_xmap=via))
     if tier == "quick":
         cfg = [("two", [2], 2, 1, 0, [None, 1]), ("two", [2, 1], 2, 1, 1, [None]), ("two", [3], 2, 1, 2, [None, 2]), ("two", [2], 2, 1, "inf", [None]),
                ("three", [2], 3, 1, 0, [None, 1]), ("three", [2], 2, 1, 1, [None]), ("four", [2], 2, 1, 0, [None]), ("four", [1, 1], 2, 1, 1, [None]),
                ("dihybrid", [2], 2, 1, 0, [None, 1]), ("dihybrid", [2], 2, 1, 1, [None]),
                ("two_genic", [2], 2, 1, 0, [None]), ("three_genic", [2], 2, 1, 1, [None]), ("four_genic", [2], 2, 1, 0, [None]), ("dihybrid_genic", [2], 2, 1, 0, [None]),
-               ("two_cov", [2], 2, 2, 0, [None, 1]), ("three_cov", [2], 2, 2, 1, [None]), ("four_cov", [2], 2, 2, 0, [None]), ("dihybrid_cov", [2], 2, 2, 0, [None])]
+               ("two_cov", [2], 2, 2, 0, [None, 1]), ("three_cov", [2], 2, 2, 1, [None, 1]), ("four_cov", [2], 2, 2, 0, [None, 1]), ("dihybrid_cov", [2], 2, 2, 0, [None, 1])]
     else:
         cfg = []
         for which in CLASSES:
